@@ -17,19 +17,38 @@ type VerifC46File struct {
 	of *openFile
 }
 
-// VerifC46Open builds a `file` for node exactly like dir.Lookup does (newFile) over repo with a
-// blob cache of cacheSize bytes and opens it (file.Open), returning the real *openFile handle.
-func VerifC46Open(ctx context.Context, repo restic.Repository, cacheSize int, node *data.Node) (*VerifC46File, error) {
+// VerifC46Node wraps the unexported `file` node (what the kernel keeps between opens).
+type VerifC46Node struct {
+	f *file
+}
+
+// VerifC46NewNode builds a `file` for node exactly like dir.Lookup does (newFile) over repo with a
+// blob cache of cacheSize bytes.
+func VerifC46NewNode(repo restic.Repository, cacheSize int, node *data.Node) (*VerifC46Node, error) {
 	root := &Root{repo: repo, blobCache: bloblru.New(cacheSize)}
 	f, err := newFile(root, func() {}, inodeFromNode(1, node), node)
 	if err != nil {
 		return nil, err
 	}
-	h, err := f.Open(ctx, nil, nil)
+	return &VerifC46Node{f: f}, nil
+}
+
+// Open calls the real file.Open; it can be called any number of times on the same node.
+func (n *VerifC46Node) Open(ctx context.Context) (*VerifC46File, error) {
+	h, err := n.f.Open(ctx, nil, nil)
 	if err != nil {
 		return nil, err
 	}
 	return &VerifC46File{of: h.(*openFile)}, nil
+}
+
+// VerifC46Open = VerifC46NewNode + Open.
+func VerifC46Open(ctx context.Context, repo restic.Repository, cacheSize int, node *data.Node) (*VerifC46File, error) {
+	n, err := VerifC46NewNode(repo, cacheSize, node)
+	if err != nil {
+		return nil, err
+	}
+	return n.Open(ctx)
 }
 
 // Read calls the real openFile.Read with a response buffer allocated like fs.Server does
